@@ -829,7 +829,7 @@ COMPONENTS = ['buildScaled on the captured real base problem vs ScaledAsset.setu
 
 
 def scenarios(seed, tier):
-    n = 300 if tier == 'quick' else 3000
+    n = 500 if tier == 'quick' else 3000
     rnd = random.Random(seed * 104729 + 16)
     for i in range(n):
         yield 'gen%d' % i, gen_case(random.Random(rnd.getrandbits(48)), tmax=8 if tier == 'quick' else 12)
